@@ -117,6 +117,32 @@ def extra_failures(tmp):
                             "%s file, cube_index=%d: maps differ from those of plane %d (median bkg %.2f vs %.2f)" % (
                                 name, k, k, np.nanmedian(b), np.nanmedian(ref[k][0]))))
                 break
+    # the maps returned by filter_image do not depend on whether files are written as well (BSCALE present)
+    try:
+        pth = os.path.join(tmp, "fi.fits")
+        hdu = fits.PrimaryHDU(planes[0].astype(np.float64))
+        hdu.header['BSCALE'] = 2.0
+        hdu.writeto(pth, overwrite=True)
+        b_none, r_none = BANE.filter_image(pth, None, step_size=(10, 10), box_size=(30, 30), cores=1, nslice=1)
+        b_out, r_out = BANE.filter_image(pth, os.path.join(tmp, "fi_out"), step_size=(10, 10), box_size=(30, 30), cores=1, nslice=1)
+        if not np.allclose(b_none, b_out, rtol=1e-6, atol=1e-9, equal_nan=True) or not np.allclose(r_none, r_out, rtol=1e-6, atol=1e-9, equal_nan=True):
+            out.append(("sigma_filter.bscale_applied_iff_present", "filter_image returns different maps when it also writes them (BSCALE=2): "
+                        "median bkg %.4f vs %.4f" % (np.nanmedian(b_out), np.nanmedian(b_none))))
+    except Exception as e:
+        out.append(("sigma_filter.bscale_applied_iff_present", "filter_image with BSCALE raised %r" % (e,)))
+    # a constant single-precision image whose value needs all 24 bits: background = that constant, noise = 0
+    for cval in (16777215.0, 1234.567):
+        im32 = np.full((60, 50), cval, dtype=np.float32)
+        pth = os.path.join(tmp, "const32.fits")
+        fits.PrimaryHDU(im32).writeto(pth, overwrite=True)
+        b, r = BANE.filter_mc_sharemem(pth, (10, 10), (30, 30), 1, (60, 50), nslice=1, domask=True)
+        # (linear interpolation of equal node values rounds in the last place of a double: 1e-12 relative allows
+        #  that and nothing coarser -- single-precision accumulation is off by 1e-8 relative or more)
+        tol = 1e-12 * abs(cval)
+        if np.nanmax(np.abs(np.asarray(b, dtype=np.float64) - float(im32[0, 0]))) > tol or np.nanmax(np.abs(r)) > tol:
+            out.append(("sigmaclip.const_gives_c_and_zero", "constant float32 image %r: background off by %.3g, noise up to %.3g" % (
+                cval, np.nanmax(np.abs(np.asarray(b, dtype=np.float64) - float(im32[0, 0]))), np.nanmax(np.abs(r)))))
+            break
     # a negative BSCALE: the noise map is |k| times the noise of the stored values, never negative
     b0, r0 = run_bane(tmp, planes[0], 10, 30, 1, 1, name="bs0.fits")
     bn, rn = run_bane(tmp, planes[0], 10, 30, 1, 1, header={'BSCALE': -2.0}, name="bs.fits")
